@@ -281,6 +281,24 @@ def inject(text, anns, ops=None):
                 raise StageError('deunion: pattern never matched')
             report['ops'].append('%d occurrences of ID->u.{%s}-> rewritten through a temporary (work-around for a CBMC union dereference defect)'
                                  % (n, ','.join(members)))
+        elif op[0] == 'widen_tail':
+            # ('widen_tail', struct tag, member, N): the C89 "struct hack" `T member[1];` at the end of a struct is indexed
+            # past its declared bound by the code; CBMC gives such reads an unconstrained value.  The declared bound is
+            # raised to N (objects only get larger; every sizeof-based size computation in the code stays consistent).
+            _, tag, member, n_el = op
+            ms = list(re.finditer(r'struct\s+%s\s*\{' % re.escape(tag), text))
+            if len(ms) != 1:
+                raise StageError('widen_tail %s: struct definition found %d times (want 1)' % (tag, len(ms)))
+            ti = next(i for i, t in enumerate(toks) if t[2] == ms[0].end() - 1)
+            tj = _match_forward(toks, ti, '{', '}')
+            body = text[toks[ti][2]:toks[tj][2]]
+            mm = list(re.finditer(r'\b%s\s*\[\s*1\s*\]\s*;' % re.escape(member), body))
+            if len(mm) != 1:
+                raise StageError('widen_tail %s.%s: member[1] found %d times (want 1)' % (tag, member, len(mm)))
+            a = toks[ti][2] + mm[0].start()
+            inserts.append((a, ('__RENAME__', mm[0].end() - mm[0].start(), '%s[%d];' % (member, n_el))))
+            report['ops'].append('struct %s: trailing array %s[1] declared as %s[%d] (struct-hack indexing is outside CBMC\'s reach)'
+                                 % (tag, member, member, n_el))
         elif op[0] == 'slice_cond':
             # ('slice_cond', function, regex locating 'if (' of the condition inside the function, prototype):
             # the parenthesised condition is copied into a new function appended to the TU
